@@ -9,6 +9,7 @@ import (
 	"sort"
 	"strings"
 	"sync"
+	"sync/atomic"
 	"time"
 	"unsafe"
 )
@@ -69,6 +70,7 @@ func Go(site string, fn func()) {
 	case ModeDying:
 		return
 	default:
+		atomic.AddInt64(&passthroughSpawns, 1)
 		go func() {
 			defer func() {
 				if r := recover(); r != nil {
@@ -82,6 +84,12 @@ func Go(site string, fn func()) {
 		}()
 	}
 }
+
+var passthroughSpawns int64
+
+// PassthroughSpawns: number of goroutines started by rewritten repository code in passthrough mode
+// (a statement that is aborted and re-queued without end shows up as an unbounded growth).
+func PassthroughSpawns() int64 { return atomic.LoadInt64(&passthroughSpawns) }
 
 // GoPanic: a goroutine started by rewritten repository code panicked in passthrough mode.
 // (In production this kills the process; the harness turns it into an observable outcome.)
